@@ -13,7 +13,8 @@ EXPLANATION = (
     "and the buffer is overwritten only when empty; (R4) honest write counts: poll_write returns the length of "
     "the slice that went into the frame, poll_write_vectored the sum of the lengths of exactly the slices pushed.")
 EXPLANATION_ADDED = '(R5) advertised window = inbound queue capacity (=C03.R3/R4); (R6) Connect/Acknowledge cells never replace a live slot (C10 table); (R7) no empty Push reaches the wire (=C05.R1); R2 also requires that a message dequeued from the outbound queue always reaches start_send before the poll function returns.'
-EXPLANATION = EXPLANATION + " Added while testing against seeded changes: " + EXPLANATION_ADDED
+EXPLANATION_ADDED2 = ' (R8) the whole C03 rule set as a precondition of loss-free delivery; (R9) the C09 rules on Push frames.'
+EXPLANATION = EXPLANATION + " Added while testing against seeded changes: " + EXPLANATION_ADDED + EXPLANATION_ADDED2
 ASSUMPTIONS = ["tokio channels are FIFO; the WebSocket sink preserves message order"]
 NOT_DECIDED = "that no interleaving corrupts or duplicates bytes (follows from R1-R4 + FIFO, not re-proved)"
 THOROUGH_CONFIGS = ["mux-nodefault", "mux-std-only", "mux-yawc"]
